@@ -94,6 +94,18 @@ func searchC12() {
 		if l == nil || prev == nil || next == nil {
 			return
 		}
+		// every other birth (and always when the lunar year leads the civil year) is built through the lunar-date constructor:
+		// the statement quantifies over moments, not over construction paths
+		if turn%2 == 0 || l.GetYear() > y {
+			ck.chk("construct-lunar", when, func() (bool, string, string) {
+				l2 := calendar.NewLunar(l.GetYear(), l.GetMonth(), l.GetDay(), t.h, t.mi, t.s)
+				if l2.GetSolar().ToYmdHms() != s.ToYmdHms() {
+					return false, l2.GetSolar().ToYmdHms(), s.ToYmdHms()
+				}
+				l = l2
+				return true, "", ""
+			})
+		}
 		// year stem at the exact Lichun boundary, independently: Lichun of the civil year from the term table
 		yearNo := y
 		if lc, ok := l.GetJieQiTable()["立春"]; ok && lc.GetYear() == y {
